@@ -16,7 +16,12 @@ RULE = ("exhaustive: every end cause (client close, kick, external Close, heartb
         "owning service's PushMsg parked too, then every end cause, then pushes to the dead session and to a bystander; exactly 9999/10000/10001/10002 "
         "pushes with and without a kick; CONNCHAN AT CAPACITY: real TCPAcceptor + pomelo.StartAcceptor with OnSessionCreate gated (service busy), "
         "1/5/99/100/101/130 clients connected one after the other, gate opened, every client handshakes and sends its own number, closes; "
-        "real TCP end-to-end scenarios; random sequences of 3-60 operations over 1-3 "
+        "TRANSPORTS: REAL sockets through the real acceptors started by pomelo.StartAcceptor - TCP, TCP+TLS (the repository's fixture "
+        "certificates), websocket, websocket over TLS - x end cause (polite client close, illegal header, truncated frame, kick, undecodable message, "
+        "bad handshake JSON, client RST abort, heartbeat expiry, frame longer than its header, peer stopped reading with the writer parked in the socket "
+        "write then kick / then heartbeat expiry) x 0/3 messages; conn.Close() RETURNING AN ERROR: every cause x every stage on the in-memory "
+        "connection; kicks of even-numbered connections through a customised kick handler (SetKickHandler -> DoKick); the per-session close callback "
+        "is registered with and fired by the real HandlerComponent; random sequences of 3-60 operations over 1-3 "
         "connections (packets of all 10 classes, holds/releases, partial front drains, ticks, pushes to live/dead/unknown ids). "
         "Non-trivial = the owning service observed at least one session removal; distinct = distinct op sequences.")
 TRUSTED_BASE = [
@@ -26,7 +31,9 @@ TRUSTED_BASE = [
     "atomicity of the model: one step = one access to shared state (status word, latch under the session mutex, chSend, scheduler queue, "
     "connection) plus the goroutine-local computation before it; Close() is one step because it runs under the session mutex; "
     "sync/atomic sequentially consistent, Go channels FIFO (the scheduler queue has several producers)",
-    "Go harness harness/c05: in-memory connection with tcp_acceptor.go's GetNextMessage framing copied statement for statement, blocking "
+    "Go harness harness/c05: real TCP / TLS / websocket / wss clients (net, crypto/tls, gorilla/websocket) against the real acceptors; "
+    "a panic of the implementation on a goroutine of the harness (kick, Close, heartbeat tick, PushMsg) is recovered and reported as hang = true; "
+    "in-memory connection with tcp_acceptor.go's GetNextMessage framing copied statement for statement, blocking "
     "PacketDecoder wrapper (the only place a reader is held), recording IClientSessionImpl / IClientSession proxy / ISessionsHandler, "
     "goroutine census by runtime.Stack, virtual clock common.VerifSetNowMs, hooks VerifHeartbeatTick (tick body) and VerifSetNextId; "
     "bin/check.py JSON->Coq term printer",
@@ -43,8 +50,11 @@ ASSUMPTIONS = [
     "life-cycle theorems carry the guard f_reused = false (no session id handed out twice within the history); C05_fresh_if_few discharges "
     "it while at most 2^32-1 sessions were ever added; with more, C05_ids_unique still gives distinct ids to sessions added fewer than 2^32-1 "
     "allocations apart, but the life-cycle statement is then not proved (an id reused after removal could alias a message still in flight)",
-    "ws_acceptor.go is not driven (its GetNextMessage differs only in framing errors, which are the same packet class); oversize packets "
-    "cannot be expressed on the wire: a 3-byte length never exceeds codec.MaxPacketSize, ParseHeader's size check is dead code",
+    "oversize packets cannot be expressed on a byte stream: a 3-byte length never exceeds codec.MaxPacketSize (ParseHeader's size check is "
+    "dead code); on websocket a message longer than its header announces is exercised (net cause 8)",
+    "on real sockets the fault placements are the scripted ONet scenarios (nothing can be held there); the exhaustive cause x stage x pair / "
+    "race enumeration runs on the in-memory connection, whose framing is tcp_acceptor.go's; a pure write failure without a read error is not "
+    "placed on a real socket",
     "the owning service processes posted closures one at a time in channel order (sche contract)",
     "the scheduler queue (capacity 999) is never full when a Msg or a Remove is posted: Post from the read loop / from inside Close() is a "
     "non-blocking step in the model (a full queue there would park Close() while it holds the session mutex - not modelled, not exercised); "
